@@ -73,8 +73,13 @@ def run(ctx):
     hb = C.build_harness("root", pkg="./cmd/c08")
     cases = ctx.work + "/cases.txt"
     rc, out = C.sh([hb, "gen", ctx.tier, cases], env=ctx.env(), timeout=3000)
+    if rc == 4:
+        # a case could not be fed in the segmentation it names, not even alone with a 15 s give-up per barrier:
+        # the run did not exercise what it claims, so there is no verdict (never a success on coalesced reads)
+        raise C.BuildError("C08 harness could not segment the stream as requested (barrier gave up twice): " + out[-1500:])
     if rc != 0:
         raise C.BuildError("harness gen failed: " + out[-2000:])
+    extra = json.load(open(cases + ".extra.json"))
     stats = {}
     for l in out.splitlines():
         f = l.split("\t")
@@ -114,6 +119,7 @@ def run(ctx):
     exhaustive_streams = {}
     announce_model = {}
     per_kind = {}
+    big_cases = []
 
     def viol(key, text, rep):
         C.violation(ctx, key, text, rep)
@@ -127,7 +133,7 @@ def run(ctx):
             evals += 1
             per_kind[kind] = per_kind.get(kind, 0) + 1
             m = model.get(cid)
-            if m is None:
+            if m is None and kind != "B":
                 raise C.BuildError("model produced no result for case %s" % cid)
             if kind == "A":
                 v, impl = r[2], r[3]
@@ -144,26 +150,59 @@ def run(ctx):
                     viol("write:%s:len=%d" % (v, n),
                          "WriteMsg mode=%s len=%d wrote %s, format (model frame) says %s" % (v, n, short(impl), short(m)),
                          {"kind": "W", "v": v, "msg_hex": msg, "expected": m, "got": impl})
+            elif kind == "H":
+                v, n, impl, ref = r[2], int(r[3]), r[4], r[5]
+                nontrivial.add(("H", v, n))
+                if m != "E" and ref != m:
+                    viol("harness-reference-header:%s:%d" % (v, n),
+                         "harness reference header %s differs from the model's %s for mode %s length %d" % (ref, m, v, n),
+                         {"no_failing_input": True, "v": v, "len": n})
+                if impl != m:
+                    disagreements += 1
+                    what = ("refuses it" if m == "E" else "writes header " + m[2:])
+                    viol("write:%s:len=%d" % (v, n),
+                         "WriteMsg mode=%s of a %d-byte message: the format (model write_header) %s, the implementation %s"
+                         % (v, n, what, ("returns an error" if impl.startswith("E") else
+                                         "returns nil after writing header %s followed by the message" % impl[2:])),
+                         {"kind": "H", "v": v, "len": n, "expected": m, "got": impl})
+            elif kind == "B":
+                v, lens, impl, expect, cls = r[2], r[3], r[4], r[5], r[6]
+                nontrivial.add(("B", v, lens))
+                big_cases.append({"mode": v, "lengths": lens, "result": impl})
+                if impl != expect:
+                    viol("big:%s:lens=%s" % (v, lens),
+                         "messages of %s bytes, mode %s, end to end over TCP: expected %s, got %s" % (lens, v, expect, short(impl, 300)),
+                         {"kind": "B", "v": v, "lens": lens, "expected": expect, "got": impl,
+                          "oracle": "direct: pattern payloads, reference headers (tied to the model by the H cases)"})
             elif kind == "F":
                 v, msgs, ref, impl = r[2], r[3], r[4], r[5]
+                fcls = r[6] if len(r) > 6 else "writer-tcp"
                 lens = [nbytes(x) for x in msgs.split(",")] if msgs else []
-                nontrivial.add(("F", v, tuple(lens)))
+                nontrivial.add(("F", fcls, v, tuple(lens)))
                 if m != "E" and ref != m:
                     viol("harness-reference-framing:%s" % v,
                          "harness reference framing differs from the model's wire for lens=%s" % lens,
                          {"no_failing_input": True, "v": v, "lens": lens})
                 if impl != m:
                     disagreements += 1
-                    viol("wire:%s:lens=%s" % (v, ",".join(map(str, lens))),
-                         "mode.New+WriteMsg over TCP, mode=%s lens=%s: peer received %s, format says %s"
-                         % (v, lens, short(impl), short(m)),
-                         {"kind": "F", "v": v, "msgs_hex": msgs, "expected": m, "got": impl})
+                    viol("wire:%s%s:lens=%s" % ("transport:" if fcls == "transport-writemsg" else "", v, ",".join(map(str, lens))),
+                         "%s over TCP, mode=%s lens=%s: peer received %s, format says %s"
+                         % ("transport.WriteMsg" if fcls == "transport-writemsg" else "mode.New+WriteMsg", v, lens, short(impl), short(m)),
+                         {"kind": "FT" if fcls == "transport-writemsg" else "F", "v": v, "msgs_hex": msgs, "expected": m, "got": impl})
             elif kind in ("R", "T"):
                 if kind == "R":
                     v, stream, sizes, impl, expect, cls = "-", r[2], r[3], r[4], r[5], r[6]
                     ann = None
                 else:
                     v, stream, sizes, impl, expect, cls, ann = r[2], r[3], r[4], r[5], r[6], r[7], r[8]
+                    unp = set(r[9].split(",")) if len(r) > 9 and r[9] != "none" else None
+                    if unp:
+                        # payloads the message parser refuses (outside C08): the model's TData event for such a
+                        # payload corresponds to the implementation's "P" (frame consumed, parser said no)
+                        head, _, tail = m.partition(":")
+                        evs, _, fin = tail.rpartition("|")
+                        m = "%s:%s|%s" % (head, ",".join("P" if (e[:1] == "D" and e[1:] in unp) else e
+                                                         for e in evs.split(",")) if evs else "", fin)
                 if expect == "=":
                     expect = impl
                 sid = stream_id(stream)
@@ -204,13 +243,25 @@ def run(ctx):
                  {"kind": kind, "v": v, "stream_id": sid, "results": [{"sizes": s, "got": short(i, 400)} for i, s in items[:4]],
                   "no_failing_input": False})
 
+    # read deadline / cancellation: outside the model; only a delivered message that was never sent is a violation
+    for d in extra.get("read_deadline_behaviour") or []:
+        if d.get("delivered_something_never_sent"):
+            viol("deadline:%s:%s" % (d["scenario"], d["mode"]),
+                 "after a read deadline / cancellation (%s, mode %s) ReadMsg delivered data that was never sent: %s"
+                 % (d["scenario"], d["mode"], d["reads"]),
+                 {"no_failing_input": False, "scenario": d["scenario"], "v": d["mode"], "reads": d["reads"]})
+
     full = sorted(((k, v, s, n) for (k, v, s), n in exhaustive_streams.items() if n == 2 ** (nbytes(s) - 1)),
                   key=lambda t: (t[0], t[1], nbytes(t[2]), t[2]))
-    seg_ok = stats.get("selftest_bad", 1) == 0 and stats.get("barrier_timeouts", 1) == 0
-    if not seg_ok:
-        ctx.notes.append("segment barrier not fully effective on this run (selftest_bad=%s, barrier_timeouts=%s): "
-                         "some chunk boundaries may have been coalesced by the kernel; results are still compared"
-                         % (stats.get("selftest_bad"), stats.get("barrier_timeouts")))
+    # a case in which a barrier gave up was run again alone (15 s give-up); had it failed again the harness would
+    # have exited 4 above.  So every case that is compared here was fed in the segmentation it names.
+    seg_ok = stats.get("selftest_bad", 1) == 0 and stats.get("second_pass:unsegmented", 0) == 0
+    if stats.get("second_pass:cases", 0):
+        ctx.notes.append("second pass (one case at a time): %d cases re-run - %d because a barrier gave up in the parallel "
+                         "phase, %d HANG verdicts to confirm (%d confirmed), %d selftest mismatches; none left unsegmented"
+                         % (stats.get("second_pass:cases", 0), stats.get("second_pass:barrier_gave_up", 0),
+                            stats.get("second_pass:hang_verdicts", 0), stats.get("second_pass:hang_confirmed", 0),
+                            stats.get("second_pass:selftest_mismatch", 0)))
     if not samples:
         samples.append({"note": "no small sample selected", "evaluations": evals})
     samples.append({"exhaustively_segmented_streams": [
@@ -221,17 +272,45 @@ def run(ctx):
          "ErrUnexpectedEOF after some bytes, (0,nil) for an empty buffer); go-dry CancelableReader read by hand",
          "kernel loopback TCP delivers the byte stream in order; the harness' segment barrier (ioctl SIOCOUTQ/SIOCINQ on both "
          "sockets) is validated each run by a recording reader (selftest counts in input_distribution)",
-         "amd64 (int is 64 bit), TCPConnConfig.Timeout = 0, no context cancellation during a read"],
+         "amd64 (int is 64 bit)",
+         "OUTSIDE THE MODEL: the read deadline (TCPConnConfig.Timeout > 0: SetReadDeadline, 'required to reconnect!') and "
+         "context cancellation during a read (context.Canceled pass-through); the model is Timeout = 0 without cancellation. "
+         "What the tree does in three such scenarios is recorded under read_deadline_behaviour and only checked for silent "
+         "corruption (a delivered message that was never sent)",
+         "memory: the model has no allocation accounting; what the readers allocate for a length field that announces far more "
+         "than arrives is recorded under hostile_length_allocation (C08 as stated does not bound it)",
+         "messages above 2^20 bytes (up to 2^26-4 abridged, 2^31 intermediate) are checked end to end against the direct oracle "
+         "(pattern payloads, reference headers) and the model is consulted for their headers only (write_header, H cases): "
+         "the extracted list model is too slow for them"],
         {"evaluations": evals, "distinct_nontrivial": len(nontrivial),
          "rule": "cases = single WriteMsg calls over a byte pipe (W), whole streams written by mode.New+WriteMsg over TCP (F), "
                  "streams read by transport.NewTCP+mode.Detect+ReadMsg (R) and by transport.NewTransport+ReadMsg (T) while the peer "
                  "feeds them over loopback TCP in a chosen segmentation: every composition of the short streams, one byte at a time, "
                  "cuts at/around every frame border, random cuts, fixed sizes, coalesced; message lengths around the 126/127-word "
-                 "switch and up to 2^20 bytes; plus truncated, wrongly announced and non-canonical streams. "
+                 "switch and up to 2^20 bytes; 64..1000 frames back to back; payloads the message parser refuses (0/8/12/16 bytes, "
+                 "encrypted-looking) between error codes; transport.WriteMsg; header-only writes and end-to-end pattern messages at "
+                 "2^22 words, 2^24-4..2^24+4 words (abridged) and 2^24..2^32+4 bytes (intermediate; 2^31 and 2^32 in thorough); "
+                 "plus truncated, wrongly announced and non-canonical streams. "
                  "distinct_nontrivial = distinct (kind, mode, stream, segmentation) with a stream of >= 2 bytes + distinct (mode, length) "
                  "of W + distinct (mode, length list) of F",
          "samples": samples, "input_distribution": stats, "cases_per_kind": per_kind,
          "disagreements_checked": disagreements,
+         "barrier_accounting": {"barriers": stats.get("barriers", 0),
+                                "gave_up_in_parallel_phase": stats.get("barrier_timeouts", 0),
+                                "cases_rerun_alone": stats.get("second_pass:cases", 0),
+                                "cases_left_unsegmented": stats.get("second_pass:unsegmented", 0),
+                                "hang_verdicts_first_pass": stats.get("second_pass:hang_verdicts", 0),
+                                "hang_verdicts_confirmed": stats.get("second_pass:hang_confirmed", 0)},
+         "huge_messages_end_to_end": big_cases,
+         "hostile_length_allocation": {
+             "covered_by_C08": False,
+             "why": "C08 speaks about which messages are delivered, the formats, the error code and EOF; it puts no bound on memory. "
+                    "Recorded because 5..8 input bytes make the reader allocate twice the announced size (ReadMsg's buffer and "
+                    "go-dry CancelableReader's) before any payload byte arrives; with a limited address space the Go runtime "
+                    "aborts the process (fatal error, not an error return).",
+             "cases": [{k: v for k, v in h.items() if k != "stream_hex"} | {"input_hex": h["stream_hex"]}
+                       for h in (extra.get("hostile_length_allocation") or [])]},
+         "read_deadline_behaviour": extra.get("read_deadline_behaviour") or [],
          "coqchk": coqchk if coqchk else "not run in the quick tier",
          "exhaustive": False,
          "exhaustive_compositions": {"streams": len(full), "segmentation_mechanism_validated": seg_ok,
@@ -275,11 +354,18 @@ def replay(ctx, path):
         cmd = [hb, "one", "W", obj["v"], arg(obj["msg_hex"])]
     elif kind == "F":
         cmd = [hb, "one", "F", obj["v"], arg(obj["msgs_hex"])]
+    elif kind == "FT":
+        cmd = [hb, "one", "FT", obj["v"], arg(obj["msgs_hex"])]
+    elif kind == "H":
+        cmd = [hb, "one", "H", obj["v"], str(obj["len"])]
+    elif kind == "B":
+        cmd = [hb, "one", "B", obj["v"], obj["lens"]]
     else:
         print("replay names no single input (broken obligation / segmentation group), re-running the full check")
         return run(ctx)
     rc, out = C.sh(cmd, env=ctx.env(), timeout=600)
-    f = out.strip().split("\t")
+    # the last line is the harness' answer (the repository prints debugging lines of its own to stdout)
+    f = out.strip().split("\n")[-1].split("\t")
     got = f[0]
     ann = f[1] if len(f) > 1 else None
     bad = False
